@@ -6,22 +6,50 @@ Statements only; the proofs live in `Xsm/Proofs`. `Legal` is the property's own 
 (`Xsm/Proofs/Legal.lean`, `structure Legal`): root active, every active id names a non-history
 state, parent of an active state active, an active compound state with children has exactly one
 active child, an active parallel state has every non-history child active.
+
+Hypotheses: `WF` (sibling keys distinct, kinds consistent with children), `InitOK` (a compound
+state with children names an existing non-history initial child — what the library itself checks
+when the state is entered), `TargetsOK` (every declared transition is target-less or resolves to a
+state that is neither a history pseudo-state nor the root: those two target kinds are covered by
+the correspondence check and the monitor, not yet by a theorem).
 -/
 namespace XSM.C01
 open XSM XSM.Spec
 
-/-- one selected transition of the executable model (any flavour, any enqueue-only hooks) keeps the
-    configuration legal and does not fail -/
+/-- one selected transition of the executable model (either engine, any enqueue-only hooks) keeps
+    the configuration legal whether its actions succeed, raise or are missing -/
 theorem legal_microstep (h : Hooks) (hok : HooksOK h) (fl : Flavor) (m : Machine) (ev : Ev)
-    (c : Cand) (s : St) (hwf : WF m.root) (hi : InitOK m.root) (hinv : Inv m s)
+    (c : Cand) (s : St) (hwf : WF m.root) (hi : InitOK m.root) (hl : Legal m.root s.cfg)
     (hc : CandOK m c) (hsrc : c.src ∈ s.cfg) :
-    Inv m (execute h fl m ev (planTransition m s.cfg s.hist c) s) :=
-  XSM.legal_microstep h hok fl m ev c s hwf hi hinv hc hsrc
+    Legal m.root (execute h fl m ev (planTransition m s.cfg s.hist c) s).cfg :=
+  XSM.legal_microstep h hok fl m ev c s hwf hi hl hc hsrc
 
-/-- whole runs of the async engine model: legal after `start()` and after every event -/
-theorem legal_async_run (m : Machine) (env : GEnv) (hwf : WF m.root) (hi : InitOK m.root)
-    (hk : m.root.kind ≠ .history) (ht : TargetsOK m) (evs : List Ev) :
-    RInv m (evs.foldl (fun s e => asyncSend m env e s) (asyncStart m env {})) :=
-  XSM.legal_async_run' m env hwf hi hk ht evs
+/-- a failed transition (missing action or service, unresolvable target, failing entry) leaves the
+    configuration exactly as it was -/
+theorem failed_transition_restores (h : Hooks) (fl : Flavor) (m : Machine) (ev : Ev) (pl : Plan) (s : St)
+    (hint : pl.internal = false) (he : (execute h fl m ev pl s).err ≠ none) :
+    (execute h fl m ev pl s).cfg = s.cfg :=
+  XSM.execute_rollback h fl m ev pl s hint he
+
+/-- every event processed (all selected transitions, stale ones skipped) keeps the configuration
+    legal: this is the configuration `on_transition` hooks and subscribers observe -/
+theorem legal_event (h : Hooks) (hok : HooksOK h) (fl : Flavor) (m : Machine) (u : UEnv) (ev : Ev)
+    (hwf : WF m.root) (hi : InitOK m.root) (ht : TargetsOK m) (s : St) (hl : Legal m.root s.cfg) :
+    Legal m.root (processEvent h fl m u ev s).cfg :=
+  XSM.processEvent_inv h hok fl m u ev hwf hi (selSound_of_targetsOK m ht) s hl
+
+/-- `start()` either refuses the machine (an error reaches the caller) or returns a legal configuration -/
+theorem legal_start (fl : Flavor) (m : Machine) (u : UEnv) (hwf : WF m.root) (hi : InitOK m.root)
+    (hk : m.root.kind ≠ .history) (ht : TargetsOK m) : StartOK m (start fl m u {}) := by
+  cases fl with
+  | sync => exact syncStart_ok m u hwf hi hk (selSound_of_targetsOK m ht)
+  | async => exact asyncStart_ok m u hwf hi hk (selSound_of_targetsOK m ht)
+
+/-- **whole runs, both engines**: after `start()` and after every one of any finite sequence of
+    events, for every user environment (actions and guards may succeed, raise, be missing) -/
+theorem legal_run (fl : Flavor) (m : Machine) (u : UEnv) (hwf : WF m.root) (hi : InitOK m.root)
+    (hk : m.root.kind ≠ .history) (ht : TargetsOK m) (hstart : (start fl m u {}).err = none)
+    (evs : List Ev) : Legal m.root (evs.foldl (cmd fl m u) (start fl m u {})).cfg :=
+  XSM.legal_run' fl m u hwf hi hk ht hstart evs
 
 end XSM.C01
